@@ -13,7 +13,8 @@ Ops == [i \in 1..6 |-> [o |-> "get", key |-> Keys[i], mode |-> "create"]] \o
        [i \in 1..6 |-> [o |-> "remove", key |-> Keys[i]]] \o
        [i \in 1..3 |-> [o |-> "setins", key |-> Keys[i], idx |-> 0, tok |-> i]] \o
        << [o |-> "reserve", n |-> 5], [o |-> "reserve", n |-> 9], [o |-> "clear"],
-          [o |-> "get", key |-> 0, mode |-> "find"] >>
+          [o |-> "get", key |-> 0, mode |-> "find"],
+          [o |-> "setins", key |-> Keys[1], idx |-> 128, tok |-> 9] >>      \* first index past the end of a bank: rejected, nothing changes
 
 Init == C = Reserve(C0, InitCap) /\ A = <<>> /\ bad = {} /\ hist = <<>>
 Next == \E i \in DOMAIN Ops :
@@ -28,6 +29,7 @@ Next == \E i \in DOMAIN Ops :
                    \cup (IF RtOK(C, res.c, op, res.r) THEN {} ELSE {"rt"})
                    \cup (IF op.o = "get" /\ op.mode = "find" /\ ((res.r = 0) # AHas(A, op.key)) THEN {"find"} ELSE {})
                    \cup (IF op.o = "get" /\ op.mode = "create" /\ res.r # 0 THEN {"create"} ELSE {})
+                   \cup (IF op.o = "setins" /\ ~InsIdxOk(op.idx) /\ (res.r # -1 \/ res.c # C \/ A1 # A) THEN {"insidx"} ELSE {})
 Spec == Init /\ [][Next]_vars
 NoBad == bad = {}
 DepthBound == TLCGet("level") < MaxDepth
